@@ -1091,7 +1091,7 @@ def _slice_concat(m, st, callee, args, t):
 
 
 # ---- internal iteration: interpreted as the loop around next() it stands for (pv/synth.py)
-ITER_KINDS = ("chars", "char_indices", "enumerate", "skip", "rev", "map", "lcur", "slice-iter", "fsplit", "filter")
+ITER_KINDS = ("chars", "char_indices", "enumerate", "skip", "rev", "map", "lcur", "slice-iter", "fsplit", "filter", "skip_while")
 
 
 def _known_iter(m, st, v):
